@@ -196,7 +196,11 @@ PPL::Watchdog::stop_timer() {
 void
 PPL::Watchdog::handle_timeout(int) {
   if (in_critical_section) {
+    // Retry soon, leaving the bookkeeping untouched: the interrupted code
+    // may have read last_time_requested and/or the timer already.
+    const Implementation::Watchdog::Time saved_request(last_time_requested);
     reschedule();
+    last_time_requested = saved_request;
   }
   else {
     time_so_far += last_time_requested;
